@@ -439,5 +439,5 @@ def parts(tier):
     q = tier == "quick"
     return [Part("history", oracle_history, strategy=history_case(), n=500 if q else 48000,
                  describe=describe_history),
-            Part("acceptance", oracle_acceptance, strategy=acceptance_case(), n=500 if q else 48000),
-            Part("defexpand", oracle_defexpand, strategy=defexpand_case(), n=500 if q else 48000)]
+            Part("acceptance", oracle_acceptance, strategy=acceptance_case(), n=1200 if q else 48000),
+            Part("defexpand", oracle_defexpand, strategy=defexpand_case(), n=800 if q else 48000)]
